@@ -183,7 +183,7 @@ var reModelBytes = regexp.MustCompile(`b([0-9a-f]*|-)\+(\d+)`)
 func diffParser() *Result {
 	r := &Result{Rule: "every input (repository corpus, grammar-driven sentences, the same with a token deleted / inserted / swapped or the text truncated, exhaustive short byte strings after mode prefixes) under 5.6 and 7.4, fed as the real scanner's token stream to the Lean whole-parser model: return code, number of semantic errors reported by actions, and the complete tree (kinds, fields, token placement by stream index, positions, byte values, nil vs empty lists) equal the real parser's. Inputs whose parse uses a production outside the translated fragment are counted as skipped"}
 	loadKindCodes()
-	srcs, tags := yyInputs(r)
+	srcs, tags := yyInputsThin(r, 4)
 	var lines, real []string
 	type meta struct {
 		src  []byte
